@@ -47,18 +47,25 @@ Lemma count_busy_upd_same : forall l i p q,
   nth_error l i = Some p -> w_busy p = w_busy q -> count_busy (upd i q l) = count_busy l.
 Proof. intros. pose proof (count_busy_upd _ _ _ q H). rewrite H0 in H1. lia. Qed.
 
+Definition is_wk6 (p : wpc) : bool := match p with WK6 => true | _ => false end.
+
 Definition WInv2 (s : state) (j : nat) (p : wpc) : Prop :=
   (w_main p = true -> (1 <= nreq s)%nat) /\ (w_idle p = true -> In j (qwait s)).
+
+(* a worker-side send_continue happens only after the last request was popped *)
+Definition WSc2 (s : state) (p : wpc) : Prop :=
+  (w_sc p = true -> nreq s = 0%nat) /\ (is_wk6 p = true -> nreq s = 0%nat \/ conn s = false).
 
 Record Inv2 (s : state) : Prop := {
   i2_tok : (queue s + count_busy (ws s) + pendadd s <= 1)%nat;
   i2_q : (0 < queue s)%nat -> (1 <= nreq s)%nat;
   i2_w : forall j p, nth_error (ws s) j = Some p -> WInv2 s j p;
+  i2_sc : forall j p, nth_error (ws s) j = Some p -> WSc2 s p;
   i2_qw : forall w, In w (qwait s) -> nth_error (ws s) w = Some WIdle;
   i2_nd : NoDup (qwait s);
   i2_len : (0 < length (ws s))%nat;
   i2_q1 : (0 < queue s)%nat -> exists j p, nth_error (ws s) j = Some p /\ w_idle p = false;
-  i2_fl : io_uflush (io s) || io_sc (io s) = true -> nreq s = 0%nat;
+  i2_fl : io_sc (io s) = true -> nreq s = 0%nat;
   i2_s1 : (1 <= nreq s)%nat ->
           conn s = false \/ (0 < queue s)%nat \/ pendadd s = 1%nat \/ existsb w_busy (ws s) = true
 }.
@@ -69,8 +76,27 @@ Proof.
   - unfold pendadd; simpl. rewrite count_busy_none; auto.
     intros j p Hj. apply nth_error_In in Hj. apply repeat_spec in Hj. subst. reflexivity.
   - apply nth_error_In in H0. apply repeat_spec in H0. subst. split; simpl; intros; discriminate.
+  - apply nth_error_In in H0. apply repeat_spec in H0. subst. split; simpl; intros; discriminate.
   - constructor.
   - rewrite repeat_length. auto.
+Qed.
+
+Lemma wsc2_notify : forall s s' j q,
+  nreq s' = nreq s -> conn s' = conn s ->
+  (forall j p, nth_error (ws s) j = Some p -> WSc2 s p) ->
+  nth_error (notify_o (ws s)) j = Some q -> WSc2 s' q.
+Proof.
+  intros s s' j q Hn Hc Hw Hj. destruct (notify_o_nth _ _ _ Hj) as (p & Hp & [->|[Pp ->]]).
+  - specialize (Hw _ _ Hp). unfold WSc2 in *. rewrite Hn, Hc. auto.
+  - destruct p; simpl in Pp; try discriminate; split; simpl; intros; discriminate.
+Qed.
+
+Lemma wsc2_add_task : forall s j q,
+  (forall j p, nth_error (ws s) j = Some p -> WSc2 s p) ->
+  nth_error (ws (add_task s)) j = Some q -> WSc2 s q.
+Proof.
+  intros s j q Hw Hj. unfold add_task in Hj. simpl in Hj. destruct (qwait s); simpl in Hj; eauto.
+  apply nth_error_upd_cases in Hj. destruct Hj as [->|Hj]; eauto. split; simpl; intros; discriminate.
 Qed.
 
 (* the effect of add_task on the fields of this layer *)
@@ -154,18 +180,19 @@ Qed.
 
 Ltac inv2_pre :=
   match goal with
-  | H : Inv2 _ |- _ => destruct H as [Htok Hq Hw Hqw Hnd Hlen Hq1 Hfl Hs1]
+  | H : Inv2 _ |- _ => destruct H as [Htok Hq Hw Hsc Hqw Hnd Hlen Hq1 Hfl Hs1]
   end; unfold pendadd in *.
 
 Lemma inv2_step_io : forall c s ch s' l,
   Inv1 s -> Inv2 s -> step_io c s ch = Some (s', l) -> taint s' = false -> Inv2 s'.
 Proof.
-  intros c s ch s' l [Ho Hr Hw1 Hp He] HI H Ht. inv2_pre. unfold step_io in H. step_cases H; free_hyps.
+  intros c s ch s' l [Ho Hr Hw1 He] HI H Ht. inv2_pre. unfold step_io in H. step_cases H; free_hyps.
   all: unfold after_read, turn_start, hc_return, goio in *.
   all: repeat match goal with |- context [if ?b then _ else _] => destruct b eqn:? end.
-  all: cbv [io_holds_o io_holds_r hc_locked hc_is_sc io_uflush io_sc] in Ho, Hr, Hfl; simpl in Hfl, Htok, Hs1.
+  all: cbv [io_holds_o io_holds_r hc_locked hc_is_sc io_sc] in Ho, Hr, Hfl; simpl in Hfl, Htok, Hs1.
   all: simpl in Ht; try discriminate Ht.
   all: repeat match goal with
+              | H : _ && _ = true |- _ => apply andb_true_iff in H; destruct H
               | H : (_ =? _)%nat = true |- _ => apply Nat.eqb_eq in H
               | H : (_ =? _)%nat = false |- _ => apply Nat.eqb_neq in H
               | H : (_ <? _)%nat = true |- _ => apply Nat.ltb_lt in H
@@ -175,7 +202,8 @@ Proof.
   all: try (constructor; simpl; unfold pendadd; simpl;
             try match goal with E : io _ = _ |- _ => rewrite ?E; simpl end;
             auto; try lia; try (intros; discriminate);
-            try (intros j p Hj; apply (Hw j p Hj)); fail).
+            try (intros j p Hj; apply (Hw j p Hj));
+            try (intros j p Hj; destruct (Hsc j p Hj); split; auto; fail); fail).
   - (* requests.append *)
     specialize (Hr eq_refl).
     assert (Hb0 : nreq s = 0%nat -> count_busy (ws s) = 0%nat).
@@ -189,6 +217,10 @@ Proof.
     constructor; simpl; unfold pendadd; simpl; auto; try lia; try (intros; discriminate).
     + destruct (nreq s) eqn:En; simpl; [specialize (Hb0 eq_refl)|]; try lia.
     + intros j p Hj. destruct (Hw j p Hj). unfold WInv2; simpl. split; auto; intros; lia.
+    + intros j p Hj. destruct (Hw1 j p Hj) as (_ & Hrr & _). unfold WSc2; simpl.
+      split; intros Hx; exfalso;
+        (assert (Hh : w_holds_r p = true) by (destruct p; simpl in Hx; try discriminate; reflexivity));
+        specialize (Hrr Hh); congruence.
     + intros _. destruct (nreq s) eqn:En; simpl; auto.
       destruct Hs1 as [H1|[H1|[H1|H1]]]; auto; try lia.
   - (* add_task from received() *)
@@ -196,11 +228,13 @@ Proof.
     destruct (add_task_fields s) as (F1 & F2 & F3 & F4).
     constructor; simpl; unfold pendadd; simpl; rewrite ?F1, ?F2, ?F3, ?A1, ?A7; auto; try lia;
       try (intros; discriminate).
-    intros j p Hj. destruct (A2 j p Hj). unfold WInv2; simpl. rewrite F2. split; auto.
+    + intros j p Hj. destruct (A2 j p Hj). unfold WInv2; simpl. rewrite F2. split; auto.
+    + intros j p Hj. pose proof (wsc2_add_task s j p Hsc Hj) as Hx. unfold WSc2 in *. simpl. rewrite F2, F3. exact Hx.
   - constructor; simpl; unfold pendadd; simpl;
        rewrite ?count_busy_notify_o, ?existsb_busy_notify_o, ?length_notify_o;
        auto; try lia; try (intros; discriminate);
        try (intros j p Hj; apply (winv2_notify s _ j p eq_refl eq_refl Hw Hj));
+       try (intros j p Hj; apply (wsc2_notify s _ j p eq_refl eq_refl Hsc Hj));
        try (intros w Hin; apply notify_o_idle; auto);
        try (intros Hx; apply notify_o_nonidle; auto);
        try (destruct k; simpl in *; auto).
@@ -208,6 +242,7 @@ Proof.
        rewrite ?count_busy_notify_o, ?existsb_busy_notify_o, ?length_notify_o;
        auto; try lia; try (intros; discriminate);
        try (intros j p Hj; apply (winv2_notify s _ j p eq_refl eq_refl Hw Hj));
+       try (intros j p Hj; apply (wsc2_notify s _ j p eq_refl eq_refl Hsc Hj));
        try (intros w Hin; apply notify_o_idle; auto);
        try (intros Hx; apply notify_o_nonidle; auto);
        try (destruct k; simpl in *; auto).
@@ -215,20 +250,34 @@ Proof.
        rewrite ?count_busy_notify_o, ?existsb_busy_notify_o, ?length_notify_o;
        auto; try lia; try (intros; discriminate);
        try (intros j p Hj; apply (winv2_notify s _ j p eq_refl eq_refl Hw Hj));
+       try (intros j p Hj; apply (wsc2_notify s _ j p eq_refl eq_refl Hsc Hj));
        try (intros w Hin; apply notify_o_idle; auto);
        try (intros Hx; apply notify_o_nonidle; auto);
        try (destruct k; simpl in *; auto).
 Qed.
 
+Lemma wsc2_upd : forall s s' i p',
+  (forall j p, nth_error (ws s) j = Some p -> WSc2 s p) -> ws s' = upd i p' (ws s) ->
+  (nreq s = 0%nat -> nreq s' = 0%nat) -> (conn s = false -> conn s' = false) -> WSc2 s' p' ->
+  forall j p, nth_error (ws s') j = Some p -> WSc2 s' p.
+Proof.
+  intros s s' i p' H Ews Hn Hc Hp' j p Hj. rewrite Ews in Hj. apply nth_error_upd_inv in Hj.
+  destruct Hj as [[-> ->]|[_ Hj]]; auto. destruct (H _ _ Hj) as [A B]. split; intros Hx.
+  - auto.
+  - destruct (B Hx); auto.
+Qed.
+
 (* a worker moves between two program points of the same class; nothing else of this layer changes *)
 Lemma inv2_upd_same : forall s s' i pc p',
-  Inv2 s -> nth_error (ws s) i = Some pc -> ws s' = upd i p' (ws s) ->
+  Inv2 s -> nth_error (ws s) i = Some pc -> ws s' = upd i p' (ws s) -> WSc2 s p' ->
   queue s' = queue s -> qwait s' = qwait s -> nreq s' = nreq s -> conn s' = conn s -> io s' = io s ->
   w_busy p' = w_busy pc -> (w_main p' = true -> w_main pc = true) ->
   w_idle p' = false -> w_idle pc = false -> Inv2 s'.
 Proof.
-  intros s s' i pc p' HI Hg Ews Eq Eqw En Ec Eio Hb Hm Hi' Hi. inv2_pre.
-  constructor; unfold pendadd; rewrite ?Ews, ?Eq, ?Eqw, ?En, ?Ec, ?Eio; auto.
+  intros s s' i pc p' HI Hg Ews Hp' Eq Eqw En Ec Eio Hb Hm Hi' Hi. inv2_pre.
+  assert (Hsc' : forall j p, nth_error (ws s') j = Some p -> WSc2 s' p).
+  { apply (wsc2_upd s s' i p' Hsc Ews); try congruence. unfold WSc2 in *. rewrite En, Ec. exact Hp'. }
+  constructor; unfold pendadd; try exact Hsc'; rewrite ?Ews, ?Eq, ?Eqw, ?En, ?Ec, ?Eio; auto.
   - rewrite (count_busy_upd_same _ _ _ _ Hg); auto.
   - intros j p Hj. apply nth_error_upd_inv in Hj. destruct Hj as [[-> ->]|[Hn Hj]].
     + destruct (Hw _ _ Hg) as [Hm0 _]. unfold WInv2. rewrite En, Eqw. split; auto. intros. congruence.
@@ -268,9 +317,11 @@ Lemma inv2_go_idle : forall s i pc,
   Inv2 (set_qwait (set_ws s (upd i WIdle (ws s))) (qwait s ++ [i])).
 Proof.
   intros s i pc HI Hg Hb Hi Hq0. inv2_pre.
+  assert (Hsc' : forall j p, nth_error (upd i WIdle (ws s)) j = Some p -> WSc2 s p).
+  { intros j p Hj. apply nth_error_upd_inv in Hj. destruct Hj as [[-> ->]|[_ Hj]]; eauto. split; simpl; intros; discriminate. }
   assert (Hnotin : ~ In i (qwait s)).
   { intro Hin. specialize (Hqw _ Hin). rewrite Hg in Hqw. inversion Hqw; subst. discriminate. }
-  constructor; simpl; unfold pendadd; simpl; auto; try lia.
+  constructor; simpl; unfold pendadd; simpl; try exact Hsc'; auto; try lia.
   - rewrite (count_busy_upd_same _ _ _ _ Hg); auto.
   - intros j p Hj. apply nth_error_upd_inv in Hj. destruct Hj as [[-> ->]|[Hn Hj]].
     + split; simpl; intros; try discriminate. apply in_or_app. right. left. auto.
@@ -292,7 +343,9 @@ Proof.
   intros s i pc n HI Hg Hb Hi Hq0. inv2_pre.
   pose proof (count_busy_upd _ _ _ WSvc Hg) as Hc. rewrite Hb in Hc. simpl in Hc.
   assert (Hn1 : (1 <= nreq s)%nat) by (apply Hq; lia).
-  constructor; simpl; unfold pendadd; simpl; auto; try lia.
+  assert (Hsc' : forall j p, nth_error (upd i WSvc (ws s)) j = Some p -> WSc2 s p).
+  { intros j p Hj. apply nth_error_upd_inv in Hj. destruct Hj as [[-> ->]|[_ Hj]]; eauto. split; simpl; intros; discriminate. }
+  constructor; simpl; unfold pendadd; simpl; try exact Hsc'; auto; try lia.
   - intros j p Hj. apply nth_error_upd_inv in Hj. destruct Hj as [[-> ->]|[Hn Hj]].
     + split; simpl; intros; auto. discriminate.
     + apply (Hw _ _ Hj).
@@ -306,15 +359,21 @@ Qed.
    channel is not connected any more *)
 Lemma inv2_leave : forall s s' i pc p',
   Inv2 s -> nth_error (ws s) i = Some pc -> w_busy pc = true -> w_busy p' = false -> w_idle p' = false ->
+  w_sc p' = false ->
   ws s' = upd i p' (ws s) -> queue s' = queue s -> qwait s' = qwait s -> conn s' = conn s -> io s' = io s ->
   (nreq s' = nreq s \/ nreq s' = 0%nat) -> (nreq s' = 0%nat \/ conn s = false) -> Inv2 s'.
 Proof.
-  intros s s' i pc p' HI Hg Hb Hb' Hi' Ews Eq Eqw Ec Eio En Hwhy.
+  intros s s' i pc p' HI Hg Hb Hb' Hi' Hnsc Ews Eq Eqw Ec Eio En Hwhy.
   destruct (busy_exclusive s i pc (i2_tok _ HI) Hg Hb) as (Hq0 & Hpa & Hcb & Hoth). inv2_pre.
+  assert (Hsc' : forall j p, nth_error (ws s') j = Some p -> WSc2 s' p).
+  { apply (wsc2_upd s s' i p' Hsc Ews).
+    - intros Hz. destruct En as [->| ->]; auto.
+    - congruence.
+    - split; intros Hx; [congruence|]. rewrite Ec. exact Hwhy. }
   pose proof (count_busy_upd _ _ _ p' Hg) as Hc. rewrite Hb, Hb' in Hc. simpl in Hc.
   assert (Hpa' : match io s with IoRcvAdd _ _ => if (nreq s' =? 1)%nat then 1%nat else 0%nat | _ => 0%nat end = 0%nat).
   { destruct (io s); auto. destruct En as [->| ->]; auto. }
-  constructor; unfold pendadd; rewrite ?Ews, ?Eq, ?Eqw, ?Ec, ?Eio; auto; try lia.
+  constructor; unfold pendadd; try exact Hsc'; rewrite ?Ews, ?Eq, ?Eqw, ?Ec, ?Eio; auto; try lia.
   - intros j p Hj. apply nth_error_upd_inv in Hj. destruct Hj as [[-> ->]|[Hn Hj]].
     + split; rewrite ?Eqw; intros; try congruence.
       unfold w_busy in Hb'. apply orb_false_iff in Hb'. destruct Hb'. congruence.
@@ -335,11 +394,16 @@ Proof.
   intros s i HI1 HI Hg.
   destruct (busy_exclusive s i WK4 (i2_tok _ HI) Hg eq_refl) as (Hq0 & Hpa & Hcb & Hoth).
   assert (Hio : match io s with IoRcvAdd _ _ => False | _ => True end).
-  { destruct HI1 as [_ Hr Hw1 _ _]. destruct (Hw1 _ _ Hg) as (_ & Hrr & _). specialize (Hrr eq_refl).
+  { destruct HI1 as [_ Hr Hw1 _]. destruct (Hw1 _ _ Hg) as (_ & Hrr & _). specialize (Hrr eq_refl).
     destruct (io s); auto. simpl in Hr. specialize (Hr eq_refl). congruence. }
   inv2_pre.
   pose proof (count_busy_upd_same _ _ _ WK5 Hg eq_refl) as Hc.
-  constructor; simpl; unfold pendadd; simpl; auto; try lia.
+  assert (Hsc' : forall j p, nth_error (upd i WK5 (ws s)) j = Some p ->
+                             WSc2 (set_ws (set_nreq s (pred (nreq s))) (upd i WK5 (ws s))) p).
+  { apply (wsc2_upd s (set_ws (set_nreq s (pred (nreq s))) (upd i WK5 (ws s))) i WK5 Hsc eq_refl); simpl; auto.
+    - intros Hz. rewrite Hz. reflexivity.
+    - split; simpl; intros; discriminate. }
+  constructor; simpl; unfold pendadd; simpl; try exact Hsc'; auto; try lia.
   - rewrite Hc. destruct (io s); try lia; try contradiction.
   - intros j p Hj. apply nth_error_upd_inv in Hj. destruct Hj as [[-> ->]|[Hn Hj]].
     + split; simpl; intros; discriminate.
@@ -367,7 +431,12 @@ Proof.
     rewrite nth_error_upd_other; auto. intro; subst.
     assert (nth_error (ws s) i = Some WIdle) by (apply Hqw; rewrite Eq; left; auto). congruence. }
   pose proof (count_busy_upd _ _ _ WK7 Hg') as Hc. simpl in Hc.
-  constructor; simpl; unfold pendadd; simpl; rewrite ?F1, ?F2, ?F3, ?F4; auto; try lia.
+  assert (Hsc' : forall j p, nth_error (upd i WK7 (ws (add_task s))) j = Some p ->
+                             WSc2 (set_ws (add_task s) (upd i WK7 (ws (add_task s)))) p).
+  { intros j p Hj. apply nth_error_upd_inv in Hj. destruct Hj as [[-> ->]|[_ Hj]].
+    - split; simpl; intros; discriminate.
+    - pose proof (wsc2_add_task s j p Hsc Hj) as Hx. unfold WSc2 in *. simpl. rewrite F2, F3. exact Hx. }
+  constructor; simpl; unfold pendadd; simpl; try exact Hsc'; rewrite ?F1, ?F2, ?F3, ?F4; auto; try lia.
   - intros j p Hj. apply nth_error_upd_inv in Hj. destruct Hj as [[-> ->]|[Hn Hj]].
     + split; simpl; intros; discriminate.
     + destruct (A2 _ _ Hj). unfold WInv2; simpl; rewrite F2. split; auto.
@@ -382,13 +451,22 @@ Lemma inv2_step_w : forall c s i ch s' l,
 Proof.
   intros c s i ch s' l HI1 HI H Ht. unfold step_w in H.
   destruct (getw s i) as [pc|] eqn:Hg; [|discriminate]. unfold getw in Hg.
-  step_cases H; free_hyps.
+  destruct (i2_sc _ HI _ _ Hg) as (Hsc1 & Hsc2).
+  step_cases H; free_hyps; simpl in Hsc1, Hsc2.
+  all: simpl in Ht; try discriminate Ht.
   all: unfold setw, hw_exit in *.
   all: repeat match goal with |- context [if ?b then _ else _] => destruct b eqn:? end.
   all: repeat match goal with |- context [match ?b with SWr _ => _ | SEnd => _ end] => destruct b eqn:? end.
-  all: try (eapply (inv2_upd_same s _ i _ _ HI Hg); simpl; reflexivity || (intros; discriminate) || auto; fail).
-  all: try (destruct HI1 as [_ _ Hw1 _ _]; destruct (Hw1 _ _ Hg) as (_ & _ & Hsc); simpl in Hsc; discriminate Hsc).
+  all: repeat match goal with
+              | H : _ && _ = true |- _ => apply andb_true_iff in H; destruct H
+              end.
+  all: try (eapply (inv2_upd_same s _ i _ _ HI Hg); simpl;
+            first [ reflexivity | (intros; discriminate)
+                  | (split; simpl; intros; try discriminate; auto;
+                     try (destruct (Hsc2 eq_refl); [assumption | congruence]); fail)
+                  | auto ]; fail).
   all: try (destruct HI; constructor; simpl; auto; fail).
+  all: let n := numgoals in idtac "remaining" n.
   - apply (inv2_go_idle s i _ HI Hg); auto.
   - apply (inv2_take s i _ n HI Hg); auto.
   - apply (inv2_go_idle s i _ HI Hg); auto.
